@@ -15,7 +15,7 @@ run.  M: `Model.scriptBytes` (`Script.to_bytes`), `Model.scriptFromRaw` (`Script
 code by the correspondence run.
 -/
 namespace C02
-open Py Spec Model
+open Py Spec Model ScriptLemmas
 
 /-- the library's dictionaries as generated from the working tree -/
 def genTables : Tables := { opCodes := Gen.OP_CODES, codeOps := Gen.CODE_OPS }
@@ -47,11 +47,43 @@ theorem tables_ok : TablesOK genTables = true := by
 
 /-- **T-tie**: the push-form selector is the minimal push, for every length; ≥ 2^32 bytes are refused -/
 theorem op_push_data_eq_spec (d : Bytes) : Gen.op_push_data d = opPushData d := by
-  sorry
+  unfold Gen.op_push_data opPushData minimalPush Py.bytesOfInts Py.len
+  simp only [pack_H, pack_I, packU]
+  by_cases h1 : d.length ≤ 75
+  · have a : (d.length : Int) < 76 := by omega
+    have a' : (d.length : Int) < 256 := by omega
+    have c : d.length < 2 ^ 32 := by omega
+    simp [h1, a, a', c]; rfl
+  · have a : ¬ (d.length : Int) < 76 := by omega
+    by_cases h2 : d.length ≤ 255
+    · have b : (d.length : Int) ≤ 255 := by omega
+      have b' : (d.length : Int) < 256 := by omega
+      have c : d.length < 2 ^ 32 := by omega
+      simp [h1, h2, a, b, b', c]; rfl
+    · have b : ¬ (d.length : Int) ≤ 255 := by omega
+      by_cases h3 : d.length ≤ 65535
+      · have b' : (d.length : Int) ≤ 65535 := by omega
+        have c : d.length < 2 ^ 32 := by omega
+        have c' : d.length < 256 ^ 2 := by omega
+        simp [h1, h2, h3, a, b, b', c, c']; rfl
+      · have b' : ¬ (d.length : Int) ≤ 65535 := by omega
+        by_cases h4 : d.length < 2 ^ 32
+        · have b'' : (d.length : Int) ≤ 4294967295 := by omega
+          have c' : d.length < 256 ^ 4 := by omega
+          simp [h1, h2, h3, h4, a, b, b', b'']; rfl
+        · have b'' : ¬ (d.length : Int) ≤ 4294967295 := by omega
+          simp [h4, a, b, b', b'']; rfl
 
 /-- **T-tie**: the script-number encoder (`_push_integer(0)` itself raises; `to_bytes` never calls it for 0..16) -/
 theorem push_integer_eq_spec (n : Int) (h : n ≠ 0) : Gen.push_integer n = pushInteger n := by
-  sorry
+  by_cases hn : n < 0
+  · unfold Gen.push_integer pushInteger
+    simp [hn]
+    rfl
+  · obtain ⟨k, rfl⟩ : ∃ k : Nat, n = (k : Int) := ⟨n.toNat, by omega⟩
+    have hk : 0 < k := by omega
+    rw [C18.push_integer_scriptnum k hk, op_push_data_eq_spec]
+    simp [pushInteger, hn]
 
 /-- tokens in the property's domain: names of the table other than the bare PUSHDATA bytes (which are not
 opcodes of the byte language), non-negative integers, data below 2^32 bytes -/
@@ -60,23 +92,241 @@ def WFTok (T : Tables) : Tok → Bool
   | .int n => decide (0 ≤ n) && decide ((scriptNum n.toNat).length < 2 ^ 32)
   | .data d => decide (d.length < 2 ^ 32)
 
+/-! ### what `TablesOK` gives -/
+
+section tables
+variable {T : Tables} (hT : TablesOK T = true)
+include hT
+
+theorem opCodes_byte {name : String} {bs : Bytes} (h : T.opCodes.lookup name = some bs) :
+    ∃ b, bs = [b] ∧ opcodeByte? name = some b := by
+  unfold TablesOK at hT
+  simp only [Bool.and_eq_true, List.all_eq_true] at hT
+  have h1 := hT.1.1.1.1.1.1.1 _ (lookup_some_mem h)
+  simp only at h1
+  split at h1
+  · rename_i b hb
+    exact ⟨b, by simpa using h1, hb⟩
+  · simp at h1
+
+theorem codeOps_inverse {name : String} {b : UInt8} (h : T.opCodes.lookup name = some [b])
+    (h1 : b ≠ 0x4c) (h2 : b ≠ 0x4d) (h3 : b ≠ 0x4e) :
+    ∃ nm, T.codeOps.lookup [b] = some nm ∧ T.opCodes.lookup nm = some [b] := by
+  unfold TablesOK at hT
+  simp only [Bool.and_eq_true, List.all_eq_true] at hT
+  have h3' := hT.1.1.1.1.1.2 _ (lookup_some_mem h)
+  simp only [Bool.or_eq_true, beq_iff_eq, List.cons.injEq, and_true] at h3'
+  rcases h3' with ((h' | h') | h') | h'
+  · exact absurd h' h1
+  · exact absurd h' h2
+  · exact absurd h' h3
+  · split at h'
+    · rename_i nm hnm
+      exact ⟨nm, hnm, by simpa using h'⟩
+    · simp at h'
+
+theorem codeOps_direct (n : Nat) (h1 : 1 ≤ n) (h2 : n ≤ 75) : T.codeOps.lookup [UInt8.ofNat n] = none := by
+  unfold TablesOK at hT
+  simp only [Bool.and_eq_true, List.all_eq_true] at hT
+  have h4 := hT.1.1.1.1.2 (n - 1) (List.mem_range.2 (by omega))
+  have e : n - 1 + 1 = n := by omega
+  rw [e] at h4
+  simpa using h4
+
+theorem codeOps_pushdata : (T.codeOps.lookup [0x4c]).isSome = true ∧ (T.codeOps.lookup [0x4d]).isSome = true ∧
+    (T.codeOps.lookup [0x4e]).isSome = true := by
+  unfold TablesOK at hT
+  simp only [Bool.and_eq_true, List.all_eq_true] at hT
+  exact ⟨hT.1.1.1.2, hT.1.1.2, hT.1.2⟩
+
+theorem opCodes_small (i : Nat) (h : i < 17) :
+    T.opCodes.lookup ("OP_" ++ toString (i : Int)) = some [if i = 0 then 0x00 else UInt8.ofNat (0x50 + i)] := by
+  unfold TablesOK at hT
+  simp only [Bool.and_eq_true, List.all_eq_true] at hT
+  have h8 := hT.2 i (List.mem_range.2 h)
+  simpa using h8
+
+end tables
+
+/-! ### one token -/
+
+theorem not_push_byte {b : UInt8} (h0 : ¬ (1 ≤ b.toNat ∧ b.toNat ≤ 0x4b))
+    (h1 : b ≠ 0x4c) (h2 : b ≠ 0x4d) (h3 : b ≠ 0x4e) : ¬ (1 ≤ b.toNat ∧ b.toNat ≤ 0x4e) := by
+  intro ⟨ha, hb⟩
+  have e : b = UInt8.ofNat b.toNat := by simp
+  have : b.toNat = 0x4c ∨ b.toNat = 0x4d ∨ b.toNat = 0x4e := by omega
+  rcases this with h | h | h <;> rw [h] at e
+  · exact h1 e
+  · exact h2 e
+  · exact h3 e
+
+/-- what the theorems need to know about one token: its bytes `e`, and the token `out` that the
+disassembler returns for them -/
+def TokFacts (T : Tables) (t : Tok) (e : Bytes) (out : Tok) : Prop :=
+  tokBytes T t = .ok e ∧ encTok t = some e ∧
+  (∀ seg rest, scriptFromRaw T seg (e ++ rest) = out :: scriptFromRaw T seg rest) ∧
+  rendersTok t out = true ∧ tokBytes T out = .ok e
+
+/-- a token that assembles to a single non-PUSHDATA opcode byte -/
+theorem tok_op_facts {T : Tables} (hT : TablesOK T = true) (t : Tok) (name : String) (b : UInt8)
+    (hl : T.opCodes.lookup name = some [b]) (h1 : b ≠ 0x4c) (h2 : b ≠ 0x4d) (h3 : b ≠ 0x4e)
+    (htb : tokBytes T t = .ok [b]) (henc : encTok t = some [b]) :
+    ∃ out, TokFacts T t [b] out := by
+  obtain ⟨nm, hc, ho⟩ := codeOps_inverse hT hl h1 h2 h3
+  obtain ⟨b', hb', hnm⟩ := opCodes_byte hT ho
+  simp only [List.cons.injEq, and_true] at hb'
+  subst hb'
+  have hnp := not_push_byte (opcodeByte_not_direct hnm) h1 h2 h3
+  refine ⟨.op nm, htb, henc, ?_, ?_, ?_⟩
+  · intro seg rest
+    exact fromRaw_op T seg b nm rest hc h1 h2 h3
+  · simp only [rendersTok, henc, hnm]
+    simp
+    omega
+  · simp only [tokBytes, ho]
+
+theorem ofNat_small_toNat (i : Nat) (h : i < 17) : (UInt8.ofNat (0x50 + i)).toNat = 0x50 + i := by
+  simp [UInt8.toNat_ofNat']; omega
+
+theorem tok_facts {T : Tables} (hT : TablesOK T = true) (t : Tok) (hw : WFTok T t = true) :
+    ∃ e out, TokFacts T t e out := by
+  obtain ⟨p1, p2, p3⟩ := codeOps_pushdata hT
+  -- data pushes (shared by `.data` and large `.int`)
+  have hdata : ∀ (t : Tok) (d : Bytes), d.length < 2 ^ 32 → tokBytes T t = .ok (minimalPush d) →
+      encTok t = some (minimalPush d) → ∃ e out, TokFacts T t e out := by
+    intro t d hlen htb henc
+    by_cases hd : d = []
+    · subst hd
+      have e0 : minimalPush [] = [0x00] := by simp [minimalPush]
+      rw [e0] at htb henc
+      have hl := opCodes_small hT 0 (by omega)
+      simp only [if_true] at hl
+      exact ⟨_, tok_op_facts hT t _ 0 hl (by decide) (by decide) (by decide) htb henc⟩
+    · refine ⟨minimalPush d, .data d, htb, henc, ?_, ?_, ?_⟩
+      · intro seg rest
+        exact fromRaw_minimalPush T seg d rest hd hlen (codeOps_direct hT) p1 p2 p3
+      · simp only [rendersTok, henc]
+        simp [hlen, hd]
+      · simp only [tokBytes, opPushData, hlen, if_true]
+  cases t with
+  | op name =>
+    simp only [WFTok, Bool.and_eq_true, Bool.not_eq_true'] at hw
+    obtain ⟨bs, hbs⟩ := Option.isSome_iff_exists.1 hw.1
+    obtain ⟨b, rfl, hb⟩ := opCodes_byte hT hbs
+    have hnp : ¬ (b = 0x4c ∨ b = 0x4d ∨ b = 0x4e) := by
+      intro hc
+      have := opcodeByte_pushdata hb hc
+      have h2 := hw.2
+      simp only [pushdataNames] at h2
+      rw [this] at h2
+      exact Bool.noConfusion h2
+    refine ⟨_, tok_op_facts hT _ name b hbs (fun h => hnp (.inl h)) (fun h => hnp (.inr (.inl h)))
+      (fun h => hnp (.inr (.inr h))) ?_ ?_⟩
+    · simp only [tokBytes, hbs]
+    · simp only [encTok, hb, Option.map_some]
+  | int n =>
+    simp only [WFTok, Bool.and_eq_true, decide_eq_true_eq] at hw
+    obtain ⟨h0, hlen⟩ := hw
+    by_cases hs : n ≤ 16
+    · obtain ⟨i, rfl⟩ : ∃ i : Nat, n = (i : Int) := ⟨n.toNat, by omega⟩
+      have hi : i < 17 := by omega
+      have hl := opCodes_small hT i hi
+      have hto := ofNat_small_toNat i hi
+      have hne : ∀ c : UInt8, c.toNat = 0x4c ∨ c.toNat = 0x4d ∨ c.toNat = 0x4e →
+          (if i = 0 then (0x00 : UInt8) else UInt8.ofNat (0x50 + i)) ≠ c := by
+        intro c hc he
+        have := congrArg UInt8.toNat he
+        by_cases hi0 : i = 0
+        · simp only [hi0, if_true] at this
+          have : c.toNat = 0 := by rw [← this]; rfl
+          omega
+        · simp only [hi0, if_false, hto] at this
+          omega
+      refine ⟨_, tok_op_facts hT _ _ _ hl (hne _ (by decide)) (hne _ (by decide)) (hne _ (by decide)) ?_ ?_⟩
+      · have hc : 0 ≤ (i : Int) ∧ (i : Int) ≤ 16 := ⟨h0, hs⟩
+        simp only [tokBytes, hc, and_self, if_true, hl]
+      · have hc : 0 ≤ (i : Int) ∧ (i : Int) ≤ 16 := ⟨h0, hs⟩
+        simp only [encTok, hc, and_self, if_true, Int.toNat_natCast, Int.natCast_eq_zero]
+    · have hc : ¬ (0 ≤ n ∧ n ≤ 16) := by omega
+      have hneg : ¬ n < 0 := by omega
+      apply hdata _ (scriptNum n.toNat) hlen
+      · simp only [tokBytes, hc, if_false, pushInteger, hneg, opPushData, hlen, if_true]
+      · simp only [encTok, hc, if_false, hneg]
+  | data d =>
+    simp only [WFTok, decide_eq_true_eq] at hw
+    apply hdata _ d hw
+    · simp only [tokBytes, opPushData, hw, if_true]
+    · simp only [encTok, hw, if_true]
+
+theorem scriptBytes_cons_ok {T : Tables} {t : Tok} {ts : List Tok} {bs : Bytes}
+    (h : scriptBytes T (t :: ts) = .ok bs) :
+    ∃ a b, tokBytes T t = .ok a ∧ scriptBytes T ts = .ok b ∧ bs = a ++ b := by
+  simp only [scriptBytes, bind, Except.bind, pure, Except.pure] at h
+  cases ha : tokBytes T t with
+  | error e => rw [ha] at h; simp at h
+  | ok a =>
+    rw [ha] at h
+    cases hb : scriptBytes T ts with
+    | error e => rw [hb] at h; simp at h
+    | ok b =>
+      rw [hb] at h
+      simp only [Except.ok.injEq] at h
+      exact ⟨a, b, rfl, rfl, h.symm⟩
+
+theorem scriptBytes_cons_of_ok {T : Tables} {t : Tok} {ts : List Tok} {a b : Bytes}
+    (ha : tokBytes T t = .ok a) (hb : scriptBytes T ts = .ok b) : scriptBytes T (t :: ts) = .ok (a ++ b) := by
+  simp only [scriptBytes, bind, Except.bind, pure, Except.pure, ha, hb]
+
 /-- assembling yields the consensus byte encoding (one byte per opcode, OP_0..OP_16 for 0..16, minimal
 script-number push for larger integers, smallest push form for data) -/
 theorem assemble (T : Tables) (hT : TablesOK T = true) (toks : List Tok) (h : ∀ t ∈ toks, WFTok T t = true) :
     ∃ bs, scriptBytes T toks = .ok bs ∧ encToks toks = some bs := by
-  sorry
+  induction toks with
+  | nil => exact ⟨[], rfl, rfl⟩
+  | cons t ts ih =>
+    obtain ⟨b, hb1, hb2⟩ := ih (fun t ht => h t (List.mem_cons_of_mem _ ht))
+    obtain ⟨a, out, ha1, ha2, _⟩ := tok_facts hT t (h t List.mem_cons_self)
+    refine ⟨a ++ b, scriptBytes_cons_of_ok ha1 hb1, ?_⟩
+    simp only [encToks, ha2, hb2, bind, Option.bind, pure]
 
 /-- disassembling such bytes returns every opcode by name and every push as exactly its data … -/
 theorem disasm_assemble (T : Tables) (hT : TablesOK T = true) (toks : List Tok) (h : ∀ t ∈ toks, WFTok T t = true)
     (bs : Bytes) (hb : scriptBytes T toks = .ok bs) (seg : Bool) :
     renders toks (scriptFromRaw T seg bs) = true := by
-  sorry
+  induction toks generalizing bs with
+  | nil =>
+    simp only [scriptBytes, Except.ok.injEq] at hb
+    subst hb
+    rw [scriptFromRaw]
+    rfl
+  | cons t ts ih =>
+    obtain ⟨a, b, ha, hb', rfl⟩ := scriptBytes_cons_ok hb
+    obtain ⟨a', out, ha1, _, hp, hr, _⟩ := tok_facts hT t (h t List.mem_cons_self)
+    rw [ha] at ha1
+    simp only [Except.ok.injEq] at ha1
+    subst ha1
+    rw [hp seg b]
+    simp only [renders, hr, Bool.true_and]
+    exact ih (fun t ht => h t (List.mem_cons_of_mem _ ht)) b hb'
 
 /-- … and re-assembling gives the same bytes, for legacy and segwit parse flag alike -/
 theorem reassemble (T : Tables) (hT : TablesOK T = true) (toks : List Tok) (h : ∀ t ∈ toks, WFTok T t = true)
     (bs : Bytes) (hb : scriptBytes T toks = .ok bs) (seg : Bool) :
     scriptBytes T (scriptFromRaw T seg bs) = .ok bs := by
-  sorry
+  induction toks generalizing bs with
+  | nil =>
+    simp only [scriptBytes, Except.ok.injEq] at hb
+    subst hb
+    rw [scriptFromRaw]
+    rfl
+  | cons t ts ih =>
+    obtain ⟨a, b, ha, hb', rfl⟩ := scriptBytes_cons_ok hb
+    obtain ⟨a', out, ha1, _, hp, _, ho⟩ := tok_facts hT t (h t List.mem_cons_self)
+    rw [ha] at ha1
+    simp only [Except.ok.injEq] at ha1
+    subst ha1
+    rw [hp seg b]
+    exact scriptBytes_cons_of_ok ho (ih (fun t ht => h t (List.mem_cons_of_mem _ ht)) b hb')
 
 /-- the same three facts for the tables of the current working tree -/
 theorem assemble_disasm_reassemble_gen (toks : List Tok) (h : ∀ t ∈ toks, WFTok genTables t = true) (seg : Bool) :
